@@ -1036,17 +1036,24 @@ func (d *decoderState) consumeObject(flags *jsonwire.ValueFlags, pos, depth int)
 		if !d.Flags.Get(jsonflags.AllowDuplicateNames) && !names.insertQuoted(quotedName, flags2.IsVerbatim()) {
 			return pos - n, wrapWithObjectName(ErrDuplicateName, quotedName)
 		}
+		// Fetching more data may move the contents of d.buf,
+		// so remember where the name is relative to the input stream.
+		nameAbsPos := d.baseOffset + int64(pos-n)
+		currentName := func() []byte {
+			i := int(nameAbsPos - d.baseOffset)
+			return d.buf[i : i+n]
+		}
 
 		// Handle after name.
 		pos += jsonwire.ConsumeWhitespace(d.buf[pos:])
 		if d.needMore(pos) {
 			if pos, err = d.consumeWhitespace(pos); err != nil {
-				return pos, wrapWithObjectName(err, quotedName)
+				return pos, wrapWithObjectName(err, currentName())
 			}
 		}
 		if d.buf[pos] != ':' {
 			err := jsonwire.NewInvalidCharacterError(d.buf[pos:], "after object name (expecting ':')")
-			return pos, wrapWithObjectName(err, quotedName)
+			return pos, wrapWithObjectName(err, currentName())
 		}
 		pos++
 
@@ -1054,12 +1061,12 @@ func (d *decoderState) consumeObject(flags *jsonwire.ValueFlags, pos, depth int)
 		pos += jsonwire.ConsumeWhitespace(d.buf[pos:])
 		if d.needMore(pos) {
 			if pos, err = d.consumeWhitespace(pos); err != nil {
-				return pos, wrapWithObjectName(err, quotedName)
+				return pos, wrapWithObjectName(err, currentName())
 			}
 		}
 		pos, err = d.consumeValue(flags, pos, depth)
 		if err != nil {
-			return pos, wrapWithObjectName(err, quotedName)
+			return pos, wrapWithObjectName(err, currentName())
 		}
 
 		// Handle after value.
